@@ -1,7 +1,7 @@
 (* Extract.v -- extraction of the executable model for the correspondence check.
    Only ExtrOcamlBasic is used (bool, option, unit, list, prod, sumbool -> OCaml natives);
    N, positive, Z, nat stay Coq inductives.  No Extract Constant of our own. *)
-Require Import Base CharSet Partition LoopRange Regex Inclusion Constructors Deriv Explore Automaton Minimizer Compile Denote StrConv.
+Require Import Base CharSet Partition LoopRange Regex Inclusion Constructors Deriv Explore Automaton Minimizer Compile Denote StrConv StrSearch BuilderSpec PartitionSpec.
 Require Extraction.
 Require Import ExtrOcamlBasic.
 Extraction "extracted/model.ml"
@@ -20,11 +20,21 @@ Extraction "extracted/model.ml"
   (* automata *)
   compile_with_bound remove_unreachable pick_alphabet combined_partition compile_successors ct_eval minimize
   b_new b_mark_final b_set_default b_add_transition build build_unchecked a_next a_state a_accepts a_str_next edges
+  (* builder spec + automata oracles *)
+  run_history h_names h_labels h_default h_final spec_delta spec_sound spec_strict name_id
+  aut_wfb a_step dfa_equiv dfa_equiv_from nerode_classes collapsed nerode_index reachable least_uncovered pwfb
   (* denotation / oracle *)
+  (* partitions *)
+  pnew pfrom_set ppush ptry_from_list plen pget pstart pend pinterval ppick_iv ppick_complement
+  pnum_classes pinterval_cover pgood_char_set classid_eqb
   (* loop ranges *)
   lr_validb lr_finite lr_infinite lr_opt lr_star lr_plus lr_point lr_is_finite lr_is_infinite
   lr_is_point lr_is_zero lr_is_one lr_is_all lr_start lr_eqb lr_contains lr_includes lr_add
   lr_add_point lr_scale lr_mul lr_rmie lr_shift
+  (* strsearch (C06) *)
+  naive_search find_sub_vector vector_prefix vector_suffix vector_concat smt_make
+  str_concat str_len str_at str_substr str_prefixof str_suffixof str_contains str_indexof
+  str_indexof_prefix str_replace str_replace_all
   (* strings *)
   str_lt str_le str_is_digit str_to_code str_from_code str_to_int str_from_int
   mref p_smtrange p_concat_list p_union_list p_inter_list p_diff_list p_sderiv goodwb.
